@@ -5,6 +5,7 @@ import Ajson.Model.Cmp
 import Ajson.Proofs.HeapBasics
 import Ajson.Proofs.EqValue
 import Ajson.Proofs.CellsSteps
+import Ajson.Proofs.EqSymm
 import Ajson.Proofs.LazyParsed
 import Ajson.Proofs.Acyclic
 
@@ -186,6 +187,18 @@ theorem C17_eq_after_any_history_from {h h' : Heap} (hs : Proofs.Struct h) (hac 
     (h'.eq (some a) (some b)).2 = .ok (Proofs.jvalEq va vb) := by
   obtain ⟨s', _, c'⟩ := Proofs.reachedS_sound R hs hac c
   exact Proofs.eq_value h' a b va vb s' c'.ok ha hb ea eb
+
+/-- **`Eq` is symmetric and reflexive** — on the nodes of every sound heap with right container cells (so after any history, see above):
+`a.Eq(b)` and `b.Eq(a)` answer the same; `a.Eq(a)` answers true unless a NaN (which no JSON text denotes, but `SetNumeric` can store)
+sits in the value. The values of nodes have pairwise different keys in every object, which is what the symmetry of the map
+comparison needs (every key of the left is a key of the right, both have the same number of distinct keys, so — pigeonhole — every
+key of the right is a key of the left); the induction is on the fuel of `absVal`. -/
+theorem C17_eq_is_symmetric_and_reflexive {h : Heap} (hs : Proofs.Struct h) (hc : Proofs.CellsOK h) (a b : Nat) (ha : a < h.size) (hb : b < h.size)
+    (va vb : JVal) (ea : Proofs.absVal (h.size + 1) h a = some va) (eb : Proofs.absVal (h.size + 1) h b = some vb) :
+    (h.eq (some a) (some b)).2 = (h.eq (some b) (some a)).2 ∧ Proofs.jvalEq va vb = Proofs.jvalEq vb va ∧
+    (Proofs.noNaN va = true → (h.eq (some a) (some a)).2 = .ok true) :=
+  ⟨Proofs.eq_symm h a b va vb hs hc ha hb ea eb, Proofs.jvalEq_symm_nodes (h.size + 1) h hs a b va vb ha hb ea eb,
+   fun nn => Proofs.eq_refl h a va hs hc ha ea nn⟩
 
 /-- the comparison is a read: it fills empty value cells only, and no node's value changes -/
 theorem C17_comparisons_are_reads (h : Heap) (a b : Option Id) (o : Ord4) :
